@@ -117,53 +117,49 @@ impl<T: Encodable> EncodableSpecImpl for Vec<T> {
     open spec fn rlp(&self) -> Seq<u8> { rlp_list(seq_rlp(self@)) }
 }
 
-/// `alloy_rlp::Decodable`: ghost triple (accepts?, value, bytes consumed).
+/// `alloy_rlp::Decodable`: ghost triple (accepts?, relation input/value, bytes consumed).
 #[verifier::external_trait_specification]
 #[verifier::external_trait_extension(DecodableSpec via DecodableSpecImpl)]
 pub trait ExDecodable: Sized {
     type ExternalTraitSpecificationFor: Decodable;
     spec fn dec_ok(s: Seq<u8>) -> bool;
-    spec fn dec_val(s: Seq<u8>) -> Self;
+    spec fn dec_post(s: Seq<u8>, v: Self) -> bool;
     spec fn dec_len(s: Seq<u8>) -> nat;
     fn decode(buf: &mut &[u8]) -> (r: Result<Self, DecoderError>)
         ensures
             r is Ok <==> Self::dec_ok(old(buf)@),
-            r matches Ok(v) ==> v == Self::dec_val(old(buf)@) && final(buf)@ == after(old(buf)@, Self::dec_len(old(buf)@)),
+            r matches Ok(v) ==> Self::dec_post(old(buf)@, v) && final(buf)@ == after(old(buf)@, Self::dec_len(old(buf)@)),
     ;
 }
-pub uninterp spec fn bytes_of(s: Seq<u8>) -> Bytes;
-pub uninterp spec fn ip4_of(s: Seq<u8>) -> Ipv4Addr;
-pub uninterp spec fn ip6_of(s: Seq<u8>) -> Ipv6Addr;
 
 impl DecodableSpecImpl for u16 {
     open spec fn dec_ok(s: Seq<u8>) -> bool { uint_ok(s, 2) }
-    open spec fn dec_val(s: Seq<u8>) -> u16 { be_val(item_payload(s, parse_hdr(s)->0)) as u16 }
+    open spec fn dec_post(s: Seq<u8>, v: u16) -> bool { v as nat == be_val(item_payload(s, parse_hdr(s)->0)) }
     open spec fn dec_len(s: Seq<u8>) -> nat { item_total(s) }
 }
 impl DecodableSpecImpl for u64 {
     open spec fn dec_ok(s: Seq<u8>) -> bool { uint_ok(s, 8) }
-    open spec fn dec_val(s: Seq<u8>) -> u64 { be_val(item_payload(s, parse_hdr(s)->0)) as u64 }
+    open spec fn dec_post(s: Seq<u8>, v: u64) -> bool { v as nat == be_val(item_payload(s, parse_hdr(s)->0)) }
     open spec fn dec_len(s: Seq<u8>) -> nat { item_total(s) }
 }
 impl DecodableSpecImpl for Bytes {
     open spec fn dec_ok(s: Seq<u8>) -> bool { parse_hdr(s) matches Some(h) && !h.list }
-    open spec fn dec_val(s: Seq<u8>) -> Bytes { bytes_of(item_payload(s, parse_hdr(s)->0)) }
+    open spec fn dec_post(s: Seq<u8>, v: Bytes) -> bool { bview(&v) == item_payload(s, parse_hdr(s)->0) }
     open spec fn dec_len(s: Seq<u8>) -> nat { item_total(s) }
 }
 impl DecodableSpecImpl for Ipv4Addr {
     open spec fn dec_ok(s: Seq<u8>) -> bool { fixed_str_ok(s, 4) }
-    open spec fn dec_val(s: Seq<u8>) -> Ipv4Addr { ip4_of(item_payload(s, parse_hdr(s)->0)) }
+    open spec fn dec_post(s: Seq<u8>, v: Ipv4Addr) -> bool { ip4_octets(v) == item_payload(s, parse_hdr(s)->0) }
     open spec fn dec_len(s: Seq<u8>) -> nat { item_total(s) }
 }
 impl DecodableSpecImpl for Ipv6Addr {
     open spec fn dec_ok(s: Seq<u8>) -> bool { fixed_str_ok(s, 16) }
-    open spec fn dec_val(s: Seq<u8>) -> Ipv6Addr { ip6_of(item_payload(s, parse_hdr(s)->0)) }
+    open spec fn dec_post(s: Seq<u8>, v: Ipv6Addr) -> bool { ip6_octets(v) == item_payload(s, parse_hdr(s)->0) }
     open spec fn dec_len(s: Seq<u8>) -> nat { item_total(s) }
 }
-/// `Vec<T>` decodes an RLP list of `T` items (element-wise structure left abstract except for Bytes, see 20_fns.rs)
+/// `Vec<T>` decodes an RLP list of `T` items (element-wise structure left abstract)
 impl<T: Decodable> DecodableSpecImpl for Vec<T> {
     uninterp spec fn dec_ok(s: Seq<u8>) -> bool;
-    uninterp spec fn dec_val(s: Seq<u8>) -> Vec<T>;
+    uninterp spec fn dec_post(s: Seq<u8>, v: Vec<T>) -> bool;
     uninterp spec fn dec_len(s: Seq<u8>) -> nat;
 }
-
